@@ -23,6 +23,7 @@ explicit hypothesis; it is exercised on every issued certificate by the `certcod
 import Nebula.Lemmas.CertV2
 import Nebula.Lemmas.CertSign
 import Nebula.Model.CertV1
+import Nebula.Lemmas.CertV1RT
 
 namespace Nebula.Props.C03
 open Nebula.Net Nebula.Cert Nebula.Lemmas.CertV2 Nebula.Lemmas.CertSign
@@ -140,6 +141,50 @@ theorem roundtrip_v2_partial (c : Cert) (rd : List UInt8) (hval : validateV2 c =
   have : ({ c with curve := c.curve, publicKey := c.publicKey, signature := c.signature } : Cert) = c := rfl
   rw [hval] at hv
   exact (Except.ok.inj hv).symm
+
+/-! ### v1 (protobuf): decode ∘ encode = id, no codec hypothesis -/
+
+open Nebula.Lemmas.CertV1RT in
+/-- **v1 round trip, standard form**: for every certificate of the shape the signer and the decoder produce
+(`V1OK`: accepted by `validate`, IPv4 prefixes of 32-bit values, whole-second bounds within int64 seconds, hex
+issuer, 32-bit curve value, byte strings shorter than 2^64), `unmarshalCertificateV1 (Marshal c) = c` — any
+name, any groups (valid UTF-8, or `Marshal` itself fails), any number of networks and unsafe networks, both
+curves, CA or host, any key and signature. -/
+theorem roundtrip_v1 (c : Cert) (h : V1OK c) (bytes : List UInt8) (hm : V1.marshal c c.publicKey = some bytes)
+    (hlen : bytes.length < 2 ^ 64) : V1.unmarshal bytes [] = .ok c := by
+  unfold V1.marshal at hm
+  cases he : V1.encodeDetails (V1.rawDetailsOf c c.publicKey) with
+  | none => rw [he] at hm; cases hm
+  | some db =>
+    rw [he] at hm
+    simp only [Option.some.injEq] at hm
+    subst hm
+    have := bytesField_length_ge 1 db
+    simp only [List.length_append] at hlen
+    exact unmarshal_marshal_aux c h c.publicKey [] db (Or.inl ⟨rfl, rfl⟩) he (by omega)
+
+open Nebula.Lemmas.CertV1RT in
+/-- **v1 round trip, handshake form**: `Recombine(Version1, MarshalForHandshakes(c), c.PublicKey(), c.Curve()) = c`. -/
+theorem roundtrip_v1_handshake (c : Cert) (h : V1OK c) (bytes : List UInt8) (hm : V1.marshal c [] = some bytes)
+    (hlen : bytes.length < 2 ^ 64) : V1.recombine bytes c.publicKey c.curve = .ok c := by
+  unfold V1.marshal at hm
+  cases he : V1.encodeDetails (V1.rawDetailsOf c []) with
+  | none => rw [he] at hm; cases hm
+  | some db =>
+    rw [he] at hm
+    simp only [Option.some.injEq] at hm
+    subst hm
+    have := bytesField_length_ge 1 db
+    simp only [List.length_append] at hlen
+    unfold V1.recombine
+    rw [unmarshal_marshal_aux c h [] c.publicKey db (Or.inr ⟨rfl, rfl⟩) he (by omega)]
+    simp
+
+open Nebula.Lemmas.CertV1RT in
+/-- The shape `V1OK` is what the decoder produces (so round trips compose: decode, encode, decode). -/
+theorem decoded_v1_ok (b pk : List UInt8) (c : Cert) (h : V1.unmarshal b pk = .ok c) (hs : V1Sized c)
+    (hi : ∀ ib, c.issuer = hexEnc ib → ib.length < 2 ^ 64) : V1OK c :=
+  v1ok_of_decoded b pk c h hs hi
 
 /-! ### Concrete round trips evaluated by the kernel (both forms), and non-vacuity -/
 
